@@ -4,6 +4,7 @@ import (
 	"fmt"
 	"math/rand/v2"
 	"sort"
+	"strings"
 
 	"github.com/DrmagicE/gmqtt"
 	"github.com/DrmagicE/gmqtt/persistence/subscription"
@@ -34,6 +35,9 @@ type c02Dump struct {
 	PerCli   map[string]uint64
 	PerCliOK map[string]bool
 	TMatch   map[string]bool // "topic|filter" -> packets.TopicMatch
+	// Combos holds the results of the remaining IterationOptions shapes: key "client|type|match|name" with
+	// client "" = any, type all / shared / nonshared / sys, match filter / name / none
+	Combos map[string][]c02Entry
 }
 
 func c02ids(p *sim.Plan) []string {
@@ -76,6 +80,34 @@ func init() {
 						d.PerCliOK[id] = err == nil
 					}
 					ss.Iterate(collect(&d.All), subscription.IterationOptions{Type: subscription.TypeAll})
+					// the other shapes: a client id combined with a match, and every iteration type on its own
+					d.Combos = map[string][]c02Entry{}
+					types := map[string]subscription.IterationType{"all": subscription.TypeAll, "shared": subscription.TypeShared, "nonshared": subscription.TypeNonShared, "sys": subscription.TypeSYS}
+					tnames := []string{"all", "nonshared", "shared", "sys"}
+					run := func(cid, tn, mt, name string) {
+						o := subscription.IterationOptions{Type: types[tn], ClientID: cid, TopicName: name}
+						switch mt {
+						case "filter":
+							o.MatchType = subscription.MatchFilter
+						case "name":
+							o.MatchType = subscription.MatchName
+						}
+						var l []c02Entry
+						ss.Iterate(collect(&l), o)
+						d.Combos[cid+"|"+tn+"|"+mt+"|"+name] = l
+					}
+					pickN := func(l []string, k int) string { return l[(w.S.StepCnt+k)%len(l)] }
+					for i, id := range c02ids(w.Plan) {
+						run(id, "all", "filter", pickN(c02Topics, i))
+						run(id, "all", "name", pickN(c02Filters, 3*i))
+						run(id, tnames[1+i%3], "none", "")
+						run(id, tnames[1+(i+1)%3], "filter", pickN(c02Topics, 5*i+1))
+					}
+					for i, tn := range tnames[1:] {
+						run("", tn, "none", "")
+						run("", tn, "filter", pickN(c02Topics, 7*i+2))
+						run("", tn, "name", pickN(c02Filters, 11*i+3))
+					}
 					d.Current = ss.GetStats().SubscriptionsCurrent
 					for _, t := range c02Topics {
 						for _, f := range c02Filters {
@@ -450,6 +482,37 @@ func oracleC02(p *sim.Plan, out *sim.Outcome) []sim.Violation {
 			check("Iterate(ClientID="+id+")", d.ByClient[id], func(c, f string) bool { return c == id })
 		}
 		check("Iterate(all)", d.All, func(c, f string) bool { return true })
+		var cks []string
+		for k := range d.Combos {
+			cks = append(cks, k)
+		}
+		sort.Strings(cks)
+		for _, k := range cks {
+			parts := strings.SplitN(k, "|", 4)
+			cid, tn, mt, name := parts[0], parts[1], parts[2], parts[3]
+			check("Iterate(client="+cid+",type="+tn+",match="+mt+","+name+")", d.Combos[k], func(c, f string) bool {
+				if cid != "" && c != cid {
+					return false
+				}
+				sh, flt := model.SplitShare(f)
+				class := "nonshared"
+				if sh != "" {
+					class = "shared"
+				} else if strings.HasPrefix(flt, "$") {
+					class = "sys"
+				}
+				if tn != "all" && tn != class {
+					return false
+				}
+				switch mt {
+				case "filter":
+					return model.Match(flt, name)
+				case "name":
+					return f == name
+				}
+				return true
+			})
+		}
 		// C02.stats
 		lo, hi := uint64(len(must)), uint64(len(must)+len(may))
 		if d.Current < lo || d.Current > hi {
